@@ -90,6 +90,8 @@ class ChunkTransport(object):
 
   def write(self, data, timeout_ms=None):
     self.written.append(data)
+    self.budgets = getattr(self, 'budgets', [])
+    self.budgets.append(timeout_ms)
     if self.on_write is not None:
       self.on_write(self, data)
     return len(data)
